@@ -17,6 +17,14 @@ vars == <<pn, sn, ind>>
 Init == pn \in Positions /\ sn \in Shapes /\ ind \in Indirections /\ ValidMember(pn, ind)
 Next == UNCHANGED vars
 
+\* oracle mode: programs supplied by the driver (random composites, repository corpus through tree2ast)
+FilePrograms == ndJsonDeserialize(IOEnv.PROGRAMS)
+FileInit == pn = "file" /\ sn = "" /\ ind \in {ToString(i) : i \in 1..Len(FilePrograms)}
+FileIndex == CHOOSE i \in 1..Len(FilePrograms) : ToString(i) = ind
+PrintFileCase ==
+  LET r == Compile(FilePrograms[FileIndex])
+  IN PrintT(<<"CASE", ToJson([idx |-> FileIndex, ok |-> r.ok, cls |-> ErrorClass(r.phase), phase |-> r.phase, mod |-> r.mod])>>)
+
 PrintCase ==
   LET prog == Member(pn, sn, ind)
       r == Compile(prog)
